@@ -164,7 +164,10 @@ def gen_case(rng, i):
                 ops[-1]["attach"] = rng.choice([True, True] + ATTACH_NAMES)
             if rng.random() < 0.25:
                 # what hooks (pre_run / post_run), tools or a killed run leave in the report directory besides the backends' files
-                ops[-1]["leave"] = sorted(rng.sample(sorted(LEFTOVERS), rng.choice([1, 1, 2, 4])))
+                left = sorted(rng.sample(sorted(LEFTOVERS), rng.choice([1, 1, 2, 4])))
+                if how != "subprocess":
+                    # (planted by the harness between the run's start and its end, which it only sees for in-process runs)
+                    ops[-1]["leave"] = left
             runs += 1
         elif r < 0.90:
             ops.append({"op": "delete", "n": rng.randint(1, max(2, min(runs, 4)))})
@@ -694,8 +697,8 @@ def tree_of(op):
     tree = [[FILE_OF_KIND[k], "file"] for k in kinds if k != "attachments"]
     if op.get("attach"):
         tree.append(["attachments/0001_" + (op["attach"] if isinstance(op["attach"], str) else "note.txt"), "file"])
-    if explicit_target(op) is None:
-        tree += [[rel, LEFTOVERS[rel][0]] for rel in op.get("leave", [])]
+    if explicit_target(op) is None and op.get("how") != "subprocess":
+        tree += [[rel, LEFTOVERS[rel][0]] for rel in (op.get("leave") or [])]
     return tree
 
 
@@ -772,7 +775,7 @@ class Runs(C.Stream):
                     f.append("test-saves-attachment")
                     if isinstance(op["attach"], str):
                         f.append("attachment-name:" + ("*.tmp" if op["attach"].endswith(".tmp") else "other"))
-                for rel in op.get("leave", []):
+                for rel in (op.get("leave") or []):
                     f.append("left-in-report-dir:" + rel)
                 if explicit_target(op) is None and fate(op) != "before" and prev["current"] is not None:
                     pk = kinds_in(prev["prints"].get("fs%d" % prev["current"], []))
